@@ -328,7 +328,31 @@ func (o *Obligation) ancestors() map[string]bool {
 // hasTagged reports whether premise selection would drop anything for this obligation.
 func (o *Obligation) hasTagged() bool {
 	for i, t := range o.exec.atags {
-		if i < o.NAssump && t != o.Tag {
+		if i < o.NAssump && !o.usesTag(t) {
+			return true
+		}
+	}
+	return false
+}
+
+// usesTag: a clause tagged "name:dep1,dep2" is proved from the untagged premises and those
+// tagged name, dep1, dep2; a premise is filed under the name part of its own tag.
+func (o *Obligation) usesTag(premiseTag string) bool {
+	if premiseTag == "" {
+		return true
+	}
+	if i := strings.IndexByte(premiseTag, ':'); i >= 0 {
+		premiseTag = premiseTag[:i]
+	}
+	name, deps := o.Tag, ""
+	if i := strings.IndexByte(name, ':'); i >= 0 {
+		name, deps = o.Tag[:i], o.Tag[i+1:]
+	}
+	if premiseTag == name {
+		return true
+	}
+	for _, d := range strings.Split(deps, ",") {
+		if d == premiseTag {
 			return true
 		}
 	}
@@ -352,7 +376,7 @@ func (o *Obligation) querySel(extra []Term, selectPremises bool) string {
 	anc := o.ancestors()
 	for i, a := range e.assumps[:o.NAssump] {
 		if selectPremises {
-			if t := e.atags[i]; t != "" && t != o.Tag {
+			if t := e.atags[i]; !o.usesTag(t) {
 				continue
 			}
 		}
